@@ -900,7 +900,7 @@ class BeamSplitter(Model):
 
     def __str__(self):
         """Formatter function for printing"""
-        return f"Model of beam-splitter with ratio {self.ratio:.3} (id={id(self)})"
+        return f"Model of beam-splitter with ratio {float(self.ratio):.3} (id={id(self)})"
 
 
 class Splitter1x2(Model):
